@@ -30,6 +30,7 @@ import (
 	"github.com/hashicorp/consul/agent/rpcclient/health"
 	"github.com/hashicorp/consul/agent/structs"
 	"github.com/hashicorp/consul/agent/submatview"
+	"github.com/hashicorp/consul/api"
 	raftstorage "github.com/hashicorp/consul/internal/storage/raft"
 	"github.com/hashicorp/consul/proto/private/pbsubscribe"
 	"github.com/hashicorp/consul/types"
@@ -119,6 +120,38 @@ type W struct {
 	keepSnaps bool
 	publishes int
 	cancel    context.CancelFunc
+	Deny      map[string][]string       // token -> service / config entry names it may not read
+	authz     map[string]acl.Authorizer // the real authorizers built from Deny
+}
+
+// authorizer returns what ACLResolver.ResolveTokenAndDefaultMeta would hand the materializer for the
+// token: everything readable, except the names listed in Deny for it (a real policy authorizer).
+func (w *W) authorizer(tok string) acl.Authorizer {
+	if a, ok := w.authz[tok]; ok {
+		return a
+	}
+	return acl.ManageAll()
+}
+
+func (w *W) SetDeny(deny map[string][]string) error {
+	w.Deny = deny
+	w.authz = map[string]acl.Authorizer{}
+	for tok, names := range deny {
+		rules := `node_prefix "" { policy = "read" } service_prefix "" { policy = "read" }`
+		for _, n := range names {
+			rules += fmt.Sprintf(` service %q { policy = "deny" }`, n)
+		}
+		pol, err := acl.NewPolicyFromSource(rules, nil, nil)
+		if err != nil {
+			return err
+		}
+		a, err := acl.NewPolicyAuthorizerWithDefaults(acl.DenyAll(), []*acl.Policy{pol}, nil)
+		if err != nil {
+			return err
+		}
+		w.authz[tok] = a
+	}
+	return nil
 }
 
 // New builds a publisher (not running), an FSM whose state stores publish into it, and nc clients.
@@ -204,6 +237,14 @@ func csnID(n *structs.CheckServiceNode) string {
 	return id
 }
 
+// csnAK is the name CheckServiceNode.CanRead asks the authorizer about (service read).
+func csnAK(n *structs.CheckServiceNode) string {
+	if n.Service != nil {
+		return n.Service.Service
+	}
+	return ""
+}
+
 func ceDigest(e structs.ConfigEntry) string {
 	s := fmt.Sprintf("%s %s", e.GetKind(), e.GetName())
 	if r, ok := e.(*structs.ServiceResolverConfigEntry); ok {
@@ -232,19 +273,19 @@ func projEvent(e stream.Event) []M {
 		if p.Op == pbsubscribe.CatalogOp_Deregister {
 			op, v = "dereg", ""
 		}
-		return []M{{"topic": topic, "subj": subjString(p.Subject()), "op": op, "id": csnID(p.Value), "v": v}}
+		return []M{{"topic": topic, "subj": subjString(p.Subject()), "op": op, "id": csnID(p.Value), "v": v, "ak": csnAK(p.Value)}}
 	case state.EventPayloadConfigEntry:
 		op, v := "reg", sum(ceDigest(p.Value))
 		if p.Op == pbsubscribe.ConfigEntryUpdate_Delete {
 			op, v = "dereg", ""
 		}
-		return []M{{"topic": topic, "subj": subjString(p.Subject()), "op": op, "id": p.Value.GetName(), "v": v}}
+		return []M{{"topic": topic, "subj": subjString(p.Subject()), "op": op, "id": p.Value.GetName(), "v": v, "ak": p.Value.GetName()}}
 	case *state.EventPayloadServiceListUpdate:
 		op := "reg"
 		if p.Op == pbsubscribe.CatalogOp_Deregister {
 			op = "dereg"
 		}
-		return []M{{"topic": topic, "subj": subjString(p.Subject()), "op": op, "id": p.Name, "v": ""}}
+		return []M{{"topic": topic, "subj": subjString(p.Subject()), "op": op, "id": p.Name, "v": "", "ak": p.Name}}
 	case *stream.PayloadEvents:
 		var out []M
 		for _, it := range p.Items {
@@ -252,7 +293,7 @@ func projEvent(e stream.Event) []M {
 		}
 		return out
 	}
-	return []M{{"topic": topic, "subj": "?", "op": "?", "id": fmt.Sprintf("%T", e.Payload), "v": ""}}
+	return []M{{"topic": topic, "subj": "?", "op": "?", "id": fmt.Sprintf("%T", e.Payload), "v": "", "ak": ""}}
 }
 
 // projItem copies one buffer item (the events of one Append).
@@ -302,7 +343,7 @@ func rowsOfCSN(nodes structs.CheckServiceNodes) []M {
 	rows := []M{}
 	for i := range nodes {
 		n := nodes[i]
-		rows = append(rows, M{"id": csnID(&n), "v": sum(csnDigest(&n))})
+		rows = append(rows, M{"id": csnID(&n), "v": sum(csnDigest(&n)), "ak": csnAK(&n)})
 	}
 	sortRows(rows)
 	return rows
@@ -312,7 +353,7 @@ func rowsOfCE(es []structs.ConfigEntry) []M {
 	rows := []M{}
 	for _, e := range es {
 		if e != nil {
-			rows = append(rows, M{"id": e.GetName(), "v": sum(ceDigest(e))})
+			rows = append(rows, M{"id": e.GetName(), "v": sum(ceDigest(e)), "ak": e.GetName()})
 		}
 	}
 	sortRows(rows)
@@ -397,6 +438,14 @@ func toU(v any) uint64 {
 }
 func str(v any) string { s, _ := v.(string); return s }
 
+// nodeAddr: the node's address; a non-empty variant makes the same request change the node row too.
+func nodeAddr(node, variant string) string {
+	if variant == "" {
+		return "10.0.0." + fmt.Sprint(1+len(node)%200)
+	}
+	return "10.9." + fmt.Sprint(len(node)%200) + "." + variant
+}
+
 func tokAccessor(tok string) string {
 	h := sha1.Sum([]byte("verif-acc:" + tok))
 	return fmt.Sprintf("%x-%x-%x-%x-%x", h[0:4], h[4:6], h[6:8], h[8:10], h[10:16])
@@ -420,10 +469,25 @@ func request(idx uint64, wr M) (structs.MessageType, any, error) {
 			svc.Kind = structs.ServiceKindConnectProxy
 			svc.Proxy = structs.ConnectProxyConfig{DestinationServiceName: d}
 		}
-		return structs.RegisterRequestType, &structs.RegisterRequest{
-			Datacenter: "dc1", Node: node, Address: "10.0.0." + fmt.Sprint(1+len(node)%200), Service: svc,
-			Check: &structs.HealthCheck{Node: node, CheckID: types.CheckID("chk-" + id), Name: "chk-" + id, Status: status, ServiceID: id},
-		}, nil
+		req := &structs.RegisterRequest{
+			Datacenter: "dc1", Node: node, Address: nodeAddr(node, str(wr["addr"])), Service: svc,
+			Checks: structs.HealthChecks{{Node: node, CheckID: types.CheckID("chk-" + id), Name: "chk-" + id, Status: status, ServiceID: id}},
+		}
+		if nc := str(wr["nchk"]); nc != "" { // a node-level check in the same request
+			req.Checks = append(req.Checks, &structs.HealthCheck{Node: node, CheckID: "nodechk", Name: "nodechk", Status: nc})
+		}
+		return structs.RegisterRequestType, req, nil
+	case "multi/svc":
+		// ONE transaction: the node (its address changes with every write) and three sidecar proxies of
+		// `dest` on it, registered under three different service names.
+		node = "nm"
+		ops := structs.TxnOps{{Node: &structs.TxnNodeOp{Verb: api.NodeSet, Node: structs.Node{Node: node, Address: nodeAddr(node, fmt.Sprint(idx%200))}}}}
+		for j, name := range []string{"px", "py", "pz"} {
+			ops = append(ops, &structs.TxnOp{Service: &structs.TxnServiceOp{Verb: api.ServiceSet, Node: node, Service: structs.NodeService{
+				ID: fmt.Sprintf("%s%d", id, j+1), Service: name, Port: 1000, Meta: map[string]string{"ver": fmt.Sprint(idx)},
+				Kind: structs.ServiceKindConnectProxy, Proxy: structs.ConnectProxyConfig{DestinationServiceName: str(wr["dest"])}}}})
+		}
+		return structs.TxnRequestType, &structs.TxnRequest{Datacenter: "dc1", Ops: ops}, nil
 	case "del/svc":
 		return structs.DeregisterRequestType, &structs.DeregisterRequest{Datacenter: "dc1", Node: node, ServiceID: id}, nil
 	case "delnode/svc":
@@ -471,6 +535,10 @@ func (w *W) Commit(c M) (M, error) {
 	res := M{"ok": true, "n": w.publishes - before}
 	if e, isErr := raw.(error); isErr && e != nil {
 		res["ok"] = false
+	}
+	if tr, isTxn := raw.(structs.TxnResponse); isTxn && len(tr.Errors) > 0 {
+		res["ok"] = false
+		res["err"] = tr.Errors[0].What
 	}
 	w.record(idx)
 	if w.keepSnaps {
@@ -696,7 +764,9 @@ func (w *W) Next(c M) (M, error) {
 			item = M{"k": "ev", "idx": ev.Index, "evs": append([]M{}, projEvent(ev)...)}
 		}
 		res = M{"k": "data", "item": item}
-		if !ev.Payload.HasReadPermission(acl.ManageAll()) {
+		// LocalMaterializer.subscribeOnce: `if !event.Payload.HasReadPermission(authz) { continue }`
+		// (a PayloadEvents batch filters its items for this subscriber on the way)
+		if !ev.Payload.HasReadPermission(w.authorizer(cl.tok)) {
 			res["filtered"] = true
 			break
 		}
@@ -777,13 +847,17 @@ func (w *W) viewRows(cl *Client) []M {
 	}
 	switch r := cl.view.Result(cl.vidx).(type) {
 	case *structs.IndexedCheckServiceNodes:
-		return rowsOfCSN(r.Nodes)
+		rows = rowsOfCSN(r.Nodes)
 	case *structs.ConfigEntryResponse:
-		return rowsOfCE([]structs.ConfigEntry{r.Entry})
+		rows = rowsOfCE([]structs.ConfigEntry{r.Entry})
 	case *structs.IndexedConfigEntries:
-		return rowsOfCE(r.Entries)
+		rows = rowsOfCE(r.Entries)
 	}
-	return rows
+	out := []M{}
+	for _, r := range rows {
+		out = append(out, M{"id": r["id"], "v": r["v"]})
+	}
+	return out
 }
 
 // Project copies the publisher's and the clients' state.
@@ -817,5 +891,9 @@ func (w *W) Project() (M, error) {
 		cls = append(cls, m)
 	}
 	queue := append([]M{}, w.Queue...)
-	return M{"idx": w.Idx, "ridx": w.Ridx, "ttl": w.TTL, "wild": WildTopics, "queue": queue, "qlen": w.Pub.VerifQueueLen(), "tbs": tbs, "cache": cache, "cl": cls}, nil
+	deny := M{}
+	for t, n := range w.Deny {
+		deny[t] = append([]string{}, n...)
+	}
+	return M{"idx": w.Idx, "ridx": w.Ridx, "ttl": w.TTL, "wild": WildTopics, "deny": deny, "queue": queue, "qlen": w.Pub.VerifQueueLen(), "tbs": tbs, "cache": cache, "cl": cls}, nil
 }
